@@ -252,7 +252,23 @@ func gcIsPathStmt(s ast.Stmt, en gcEnv) bool {
 func (c *gcCtx) shapeStmts(list []ast.Stmt, en gcEnv, k func(gcEnv) string) (string, bool) {
 	// pinned regions
 	for _, r := range gcRegions {
-		if r.fn != c.u.name || len(list) < r.n {
+		if r.fn != c.u.name {
+			continue
+		}
+		first := gcNorm(strings.SplitN(r.text, "\n", 2)[0])
+		if (len(list) < r.n || gcStmtsText(list[:r.n]) != gcNorm(r.text)) && strings.HasPrefix(gcNorm(src(list[0])), first) && !gcRegionsSeen[r.fn+"."+r.name] {
+			// the region starts here but its text differs: fail closed, naming the region
+			alt := false
+			for _, r2 := range gcRegions {
+				if r2.fn == r.fn && r2.name != r.name && len(list) >= r2.n && gcStmtsText(list[:r2.n]) == gcNorm(r2.text) {
+					alt = true
+				}
+			}
+			if !alt {
+				dieAt(list[0], "the pinned region %s of %s changed: its source text is no longer the text GoctyGo.%s was written against (any edit inside a pinned region is a broken tie)", r.name, r.fn, r.name)
+			}
+		}
+		if len(list) < r.n {
 			continue
 		}
 		if gcStmtsText(list[:r.n]) != gcNorm(r.text) {
